@@ -9,15 +9,20 @@ B == 262144
 Pixels == { 0, B, 3 * B, 10 * B }
 Trapped == { 0, B \div 2, B, 2 * B }
 Caps(k) == { << >>, [i \in 1 .. k |-> B \div 4], [i \in 1 .. k |-> 4 * B] }
+Min2(a, b) == IF a < b THEN a ELSE b
+\* cases exported for replay: the whole grid up to two species, a sub-grid for three
+CasesK(k, tr, dn, tf) ==
+  { [pixel |-> p, trapped |-> t, dens |-> d, tf |-> f, caps |-> c] :
+      p \in Pixels, t \in [1 .. k -> tr], d \in [1 .. k -> dn], f \in [1 .. k -> tf], c \in Caps(k) }
 Cases(_z) ==
-  UNION { { [pixel |-> p, trapped |-> t, dens |-> d, tf |-> f, caps |-> c] :
-              p \in Pixels, t \in [1 .. k -> Trapped], d \in [1 .. k -> Dens], f \in [1 .. k -> Tfs], c \in Caps(k) } :
-          k \in 1 .. MAXS }
-\* laws, for every case of the grid
+  UNION { CasesK(k, Trapped, Dens, Tfs) : k \in 1 .. Min2(MAXS, 2) }
+  \cup (IF MAXS >= 3 THEN CasesK(3, {0, B}, {Q(1, 2), Q(1, 1)}, {Q(1, 0), Q(1, 2)}) ELSE {})
+\* laws, for every case of the full grid (quantified, never materialised as a set)
 PersistenceLaws ==
-  \A c \in Cases(0) :
-    LET out == PersistStep(c.pixel, c.trapped, c.dens, c.tf, c.caps) IN
-      Conserved(c.pixel, c.trapped, out) /\ NonNegative(out)
+  \A k \in 1 .. MAXS :
+    \A p \in Pixels, t \in [1 .. k -> Trapped], d \in [1 .. k -> Dens], f \in [1 .. k -> Tfs], c \in Caps(k) :
+      LET out == PersistStep(p, t, d, f, c) IN
+        Conserved(p, t, out) /\ NonNegative(out)
 OtherLaws ==
   /\ \A x \in 0 .. 40, cap \in 0 .. 20 : FullWell(FullWell(x, cap), cap) = FullWell(x, cap) /\ FullWell(x, cap) <= cap
   /\ \A c \in 0 .. 16, d \in 0 .. 15, a \in 0 .. 15 :
@@ -26,9 +31,16 @@ OtherLaws ==
 ASSUME OtherLaws
 ASSUME PersistenceLaws
 MCSpec == dummy = 0 /\ [][FALSE]_dummy
+RECURSIVE PowN(_, _)
+PowN(b, k) == IF k = 0 THEN 1 ELSE b * PowN(b, k - 1)
+RECURSIVE LawCountFrom(_)
+LawCountFrom(k) == IF k > MAXS THEN 0
+                   ELSE Cardinality(Pixels) * PowN(Cardinality(Trapped) * Cardinality(Dens) * Cardinality(Tfs), k) * 3
+                        + LawCountFrom(k + 1)
 ExportSample(_z) ==
   LET s == SetToSeq(Cases(0))
       n == Len(s) \div STRIDE
-  IN  /\ PrintT(<<"CFGSET", Len(s), "EXPORTED", n>>)
+  IN  /\ PrintT(<<"LAWCASES", LawCountFrom(1)>>)
+      /\ PrintT(<<"CFGSET", Len(s), "EXPORTED", n>>)
       /\ JsonSerialize(IOEnv.OUT_FILE, [k \in 1 .. n |-> s[k * STRIDE]])
 =============================================================================
